@@ -41,11 +41,15 @@ Theorem C06_only_just_once_templates_bind :
 Proof. exact run_persist. Qed.
 Print Assumptions C06_only_just_once_templates_bind.
 
-(* across a continuation file the rows reachable by nickname or table name keep table and id *)
+(* across a continuation the persistent names keep denoting rows with the same table, id
+   and child index *)
 Theorem C06_survive_continuation :
-  forall s c n c',
-    save s = Ok c -> (In (n, c') (k_p_nicks c) \/ In (n, c') (k_p_tables c)) ->
-    exists c0, In c0 (heap s) /\ c_table c' = c_table c0 /\ c_id c' = c_id c0.
+  forall e s c,
+    save s = Ok c ->
+    p_nicks (load e c) = p_nicks s /\ p_tables (load e c) = p_tables s /\
+    forall h cl, nth_error (heap s) h = Some cl ->
+      exists c', nth_error (heap (load e c)) h = Some c' /\
+                 c_table c' = c_table cl /\ c_id c' = c_id cl /\ c_index c' = c_index cl.
 Proof. exact singletons_survive_continuation. Qed.
 Print Assumptions C06_survive_continuation.
 
